@@ -320,6 +320,7 @@ REPLAYERS = {
     'c19_reflexivity': r_c19,
     'c19_eqhash': r_c19,
     'c06': r_c06,
+    'c06re': lambda p: __import__('bearverif.c06re', fromlist=['x']).replay_c06re(p),
     'xh': r_xh,
     'c04': r_c04,
     'vale_disagree': r_vale_disagree,
